@@ -65,6 +65,7 @@ fn main() {
                 "C15" => props::c15::run(tier, seed),
                 "C19" => props::c19::run(tier, seed),
                 "C16" => props::c16::run(tier, seed),
+                "C17" => props::c17::run(tier, seed),
                 "C18" => props::c18::run(tier, seed),
                 "C11" => props::c11::run(tier, seed),
                 other => {
@@ -114,6 +115,7 @@ fn replay(path: &str) -> i32 {
             "C15" => all.extend(props::c15::all_scenarios(tier)),
             "C19" => all.extend(props::c19::all_scenarios(tier)),
             "C16" => all.extend(props::c16::all_scenarios(tier)),
+            "C17" => all.extend(props::c17::all_scenarios(tier)),
             "C18" => all.extend(props::c18::all_scenarios(tier)),
             "C11" => all.extend(props::c11::all_scenarios(tier)),
             _ => {}
